@@ -1,6 +1,7 @@
 import Crusta.Proofs.Sat
 import Crusta.Proofs.SatRoundTrip
 import Crusta.Proofs.SatMalformed
+import Crusta.Gen.SatTokens
 
 /-!
 # C16 — the exchange with an external SAT solver is well-formed and cannot hang (property theorems)
@@ -128,5 +129,17 @@ theorem rejected_lines (nv : Nat) :
       (∃ w ∈ (splitAsciiWs l).drop 1, BadTok nv w) → BadLine nv (some l)) :=
   ⟨Sat.badLine_none nv, fun l h1 h2 h3 h4 h5 h6 h7 => Sat.badLine_unexpected' nv l h1 h2 h3 h4 h5 h6 h7,
    fun l hp h => Sat.badLine_vline' nv l hp h⟩
+
+/-- **the tokens of the exchange are those of the source**: the status lines, the value-line
+prefix, the comment prefix, the two bare lines that are skipped and the DIMACS header prefix are
+regenerated from `src/sat/buffered_sat_solver.rs` on every run (the generator also insists on the
+shape of the if-chain: status tests first, `split_ascii_whitespace().skip(1)`, `parse::<isize>`);
+the string literals of the Lean reply parser and DIMACS renderer are exactly these -/
+theorem exchange_tokens_are_the_source :
+    Gen.statusLines = [IO.strOf "s SATISFIABLE", IO.strOf "s UNSATISFIABLE"] ∧
+    Gen.valuePrefix = IO.strOf "v " ∧ Gen.commentPrefix = IO.strOf "c " ∧
+    Gen.bareLines = [IO.strOf "c", IO.strOf "v"] ∧ Gen.dimacsHeaderPrefix = IO.strOf "p cnf " := by
+  rw [Sat.strOf_sSat, Sat.strOf_sUnsat, Sat.strOf_v_sp, Sat.strOf_c_sp, Sat.strOf_c, Sat.strOf_v, Sat.strOf_p_cnf]
+  decide
 
 end Crusta.C16
